@@ -136,6 +136,25 @@ pub fn run(prop: &str, args: &Args, rep: &mut Report) {
     });
 }
 
+/// The same monitors on sessions made of bursts in buffers of 200..1100 bytes (lengths, offsets, counts, columns > 255).
+pub fn run_large(prop: &str, args: &Args, rep: &mut Report) {
+    let mut env = SessionEnv::from_build(prop_bit(prop));
+    if prop == "C16" {
+        env.enabled = P_C01 | P_C05 | P_C06 | P_C10 | P_C11 | P_C13 | P_C15 | P_C16;
+    }
+    let total: u64 = if args.thorough { 60_000 } else { 2_400 };
+    let n = args.scaled(total) / args.nshards.max(1);
+    let prop_s = prop.to_string();
+    run_session_cases(args, n, &env, rep, &|rng, idx| {
+        let mut p = profile_for(&prop_s, idx);
+        if prop_s == "C03" {
+            p.w_write = 3;
+            p.w_set_prompt = 2;
+        }
+        gen_large_session(rng, &p)
+    });
+}
+
 /// Replay one explicit session with every monitor of `prop` on, verbosely.
 pub fn replay(prop: &str, session: &str, rep: &mut Report) -> bool {
     let (cfg, ops) = match decode_session(session) {
